@@ -189,6 +189,7 @@ class C20:
     LEVEL = "fault_enumeration"
     HANG_IS_VIOLATION = True
     EVAL_COUNTER = "evaluations"
+    DETERMINISM_PROBE_RUNS = 2
     TIERS = {
         "quick": {"runs": 600, "budget_s": 170, "chunk": 4, "run_timeout_s": 120},
         "thorough": {"runs": 9000, "budget_s": 1700, "chunk": 8, "run_timeout_s": 120},
